@@ -809,6 +809,7 @@ func decodeDriverRun(db *TermDB, st *State, tp PtrV, seq string) ([]keyEnt, stri
 	nb := &StructV{Typ: bv.Typ, F: append([]Value(nil), bv.F...)}
 	nb.F[0] = SliceV{Elem: elem, Obj: ao, CLen: len(seq), CCap: len(seq)}
 	st.Mem[bobj] = nb
+	db.Ev.C.Paths = 0 // the path budget is per evaluation, not per check
 	paths, err := db.Ev.Call(st, e.FindFunc(modPath+".(*tScreen).collectEventsFromInput"), []Value{tp, PtrV{Obj: bobj}, BoolT(driverExpire)})
 	if err != nil || len(paths) != 1 {
 		return nil, fmt.Sprintf("error %v paths=%d", err, len(paths)), nil, ""
@@ -1009,6 +1010,103 @@ func c17AcsMaps(run *PropRun) {
 	}
 	run.Extra["acs_maps_evaluated"] = n
 	for k := range c.Assumed {
+		run.Assumed[k] = true
+	}
+}
+
+// c11DriverSplits: per description, through the real driver -
+// (a) a focus report that is still in the buffer when the escape timeout passes is delivered as a focus event, also
+//     where it is a proper prefix of a key sequence (rxvt: ESC [ O a) and the longer key did not complete;
+// (b) every sequence of the key table (paste brackets among them) cut in the middle by a read boundary decodes to the
+//     same events as in one read: the first part is held back, not given away as runes.
+func c11DriverSplits(run *PropRun) {
+	e := run.Eng
+	db := LoadTermDB(e, true)
+	for _, te := range db.Entries {
+		tab, fs, tp := buildKeyTable(db, te)
+		var seqs []string
+		for s := range tab {
+			seqs = append(seqs, s)
+		}
+		sort.Strings(seqs)
+		for _, r := range []string{"\x1b[I", "\x1b[O"} {
+			// a key of the table with exactly these bytes wins (none of the shipped descriptions has one)
+			if _, isKey := tab[r]; isKey {
+				continue
+			}
+			driverExpire = true
+			evs, why := decodeDriver(db, fs, tp, r)
+			driverExpire = false
+			ok := why == "" && len(evs) == 1 && evs[0].Key == -1
+			g := run.AddObligation(fmt.Sprintf("keytable[%s]/focus-report-after-timeout[%q]", te.Name, r), "table", BoolT(ok),
+				fmt.Sprintf("the focus report %q alone in the buffer when the escape timeout passes is one focus event (got %v %s)", r, evs, why))
+			g.ReplayGo = replayKeyTableImports(te.Name, []string{"bytes"}, fmt.Sprintf(`
+	s.cells.Resize(80, 24)
+	evs := s.collectEventsFromInput(bytes.NewBufferString(%q), true)
+	if len(evs) != 1 { fail("%%q after the timeout produced %%d events, want one focus event", %q, len(evs)); return }
+	if _, ok := evs[0].(*EventFocus); !ok { fail("%%q after the timeout decoded to %%T, want *EventFocus", %q, evs[0]); return }`, r, r, r))
+		}
+		bad, badKey := "", ""
+		n := 0
+		// quick: the paste brackets and an evenly spaced sample of the table; thorough: every sequence
+		step := 1
+		if run.Tier != "thorough" && len(seqs) > 12 {
+			step = len(seqs) / 12
+		}
+		evalErr := ""
+		for i, k := range seqs {
+			if len(k) < 2 {
+				continue
+			}
+			if i%step != 0 && !strings.HasPrefix(k, "\x1b[20") {
+				continue
+			}
+			cut := len(k) / 2
+			whole, w1 := decodeDriver(db, fs, tp, k)
+			split, w2 := decodeDriverChunks(db, fs, tp, []string{k[:cut], k[cut:]})
+			n++
+			if w1 != "" || w2 != "" {
+				// the evaluator gave up: undecided, not a violation
+				evalErr = fmt.Sprintf("keytable[%s]/split-in-the-middle: %q: %s %s", te.Name, k, w1, w2)
+				continue
+			}
+			same := len(whole) == len(split)
+			if same {
+				for i := range whole {
+					if whole[i] != split[i] {
+						same = false
+					}
+				}
+			}
+			if !same && bad == "" {
+				bad = fmt.Sprintf("%q in one read: %v; split as %q | %q: %v", k, whole, k[:cut], k[cut:], split)
+				badKey = k
+			}
+		}
+		if evalErr != "" {
+			run.Errors = append(run.Errors, evalErr)
+			continue
+		}
+		g := run.AddObligation(fmt.Sprintf("keytable[%s]/split-in-the-middle", te.Name), "table", BoolT(bad == ""),
+			fmt.Sprintf("each of the %d key sequences of the table decodes the same in one read and cut in the middle by a read boundary %s", n, bad))
+		cut := len(badKey) / 2
+		g.ReplayGo = replayKeyTableImports(te.Name, []string{"bytes"}, fmt.Sprintf(`
+	s.cells.Resize(80, 24)
+	desc := func(evs []Event) string {
+		out := ""
+		for _, ev := range evs {
+			if k, ok := ev.(*EventKey); ok { out += fmt.Sprintf("[key %%d mod %%d rune %%d]", k.Key(), k.Modifiers(), k.Rune()) } else { out += fmt.Sprintf("[%%T]", ev) }
+		}
+		return out
+	}
+	whole := desc(s.collectEventsFromInput(bytes.NewBufferString(%q), false))
+	buf := bytes.NewBufferString(%q)
+	evs := s.collectEventsFromInput(buf, false)
+	buf.WriteString(%q)
+	evs = append(evs, s.collectEventsFromInput(buf, false)...)
+	if split := desc(evs); split != whole { fail("%%q in one read decodes to %%s, cut in the middle to %%s", %q, whole, split); return }`, badKey, badKey[:cut], badKey[cut:], badKey))
+	}
+	for k := range db.Ev.C.Assumed {
 		run.Assumed[k] = true
 	}
 }
